@@ -72,7 +72,7 @@ def proof_layer(ctx):
                 return info
     for dep in ("Srv/Model.v", "Srv/Proofs.v"):
         if not os.path.exists(os.path.join(vlib.COQ, "theories", dep[:-2] + ".vo")):
-            ok, log = vlib.coq_build()
+            ok, log = vlib.coq_build(pid="C14")
             if not ok:
                 info.update(ok=False, why="coq development does not build:\n" + log[-2500:])
                 return info
